@@ -840,6 +840,11 @@ func (r *envelopingReader) Read(data []byte) (n int, err error) {
 	}
 	if len(data) > offset {
 		n, err = r.current.Read(data[offset:])
+		if offset+n > 0 && errors.Is(err, io.EOF) {
+			// This is the end of the current message, not necessarily the end
+			// of the stream. The next call to Read will find out.
+			err = nil
+		}
 	}
 	return offset + n, err
 }
@@ -959,12 +964,14 @@ func (r *transformingReader) Read(data []byte) (n int, err error) {
 			offset = r.envRemain
 			r.envRemain = 0
 		}
-		var err error
 		if len(data) > offset && r.buffer != nil {
-			n, err = r.buffer.Read(data[offset:])
+			// The only possible error is io.EOF, which means the end of the current
+			// message's buffer, not the end of the stream. So it is ignored: the next
+			// iteration (or call) prepares the next message or finds the actual end.
+			n, _ = r.buffer.Read(data[offset:])
 		}
 		if offset+n > 0 {
-			return offset + n, err
+			return offset + n, nil
 		}
 
 		// If we get here, there was nothing in tr.buffer to read, so
